@@ -569,6 +569,13 @@ func c19PanicSite(stack string) string {
 
 func TestVerif_C19(t *testing.T) {
 	run := vfNewRun(t, "C19", "exploration")
+	if vfPvOnly() { // VERIF_PV_ONLY=1: only the provider-type sweep (development / replay aid)
+		pw := vfNewWorld(t)
+		c19ProviderTypes(run, pw)
+		pw.Close()
+		run.Finish(0, 0)
+		return
+	}
 	run.SetRule("whole requests assembled from per-field hostile pools (method, path, host, cookie [attacker-forgeable AND validly signed with hostile payloads at the cipher/lz4/msgpack/ticket layers], Authorization, state, code, rd, error, forwarding and client-IP headers, Accept, RemoteAddr, form body) in a sweep of configurations; " +
 		"phase 1: every pool value once in an otherwise benign request; phase 2: seeded random combinations of 2-6 hostile fields; phase 3 (redis): corrupted stored values; " +
 		"phase 4: sessions of unusual identities (e-mail without '@', empty parts, htpasswd/basic/bearer users without e-mail) x authorization query parameters; phase 5: clients giving up before/while a slow provider is called (callback, refresh, re-validation, backend logout, bearer); " +
@@ -687,6 +694,9 @@ func TestVerif_C19(t *testing.T) {
 	c19ClientGivesUp(run, t, htp)
 	t6 := time.Now()
 	c19ConfigSpace(run, w, htp)
+	t7 := time.Now()
+	c19ProviderTypes(run, w) // provider-type sweep (c19_providers.go); sets the global clock mock, nothing else runs now
+	run.Extra("provider_types_seconds", time.Since(t7).Seconds())
 	run.Extra("phase_seconds", map[string]float64{"requests_grammar": t4.Sub(run.start).Seconds(), "odd_identities": t5.Sub(t4).Seconds(), "client_gives_up": t6.Sub(t5).Seconds(), "configuration_space": time.Since(t6).Seconds()})
 	run.Extra("configurations", len(cfgs))
 	// a data race between request handlers is a latent crash (concurrent map access is a fatal error no recover() sees)
